@@ -74,6 +74,211 @@ pub fn mutate(_node: usize, class: u32, nth: u32, muts: &[Mut]) -> Option<Vec<u8
     Some(bytes)
 }
 
-pub fn craft(_w: &Rc<World>, _node: usize, _kind: &str, _spoof_p: Option<u32>, _a: i64, _b: i64, _c: i64, _d: i64) -> Option<Vec<u8>> {
-    None
+/// A captured DATA re-sent as the next change of its writer, with a mutated payload
+pub fn fresh(class: u32, nth: u32, sn_off: i64, muts: &[Mut]) -> Option<Vec<u8>> {
+    use crate::wire::Sub;
+    let (mut bytes, next_sn, span, writer) = with_net(|n| {
+        let c: Vec<&crate::net::WireRec> = n
+            .wire
+            .iter()
+            .filter(|w| w.class & class != 0 && w.bytes.is_some() && w.src.is_some() && w.parsed.subs.iter().any(|s| matches!(s, Sub::Data { .. })))
+            .collect();
+        if c.is_empty() {
+            return None;
+        }
+        let rec = c[nth as usize % c.len()];
+        let (idx, writer) = rec.parsed.subs.iter().enumerate().find_map(|(i, s)| if let Sub::Data { writer, .. } = s { Some((i, *writer)) } else { None })?;
+        let prefix = rec.parsed.src_prefix;
+        let mut max_sn = 0i64;
+        for w in n.wire.iter().filter(|w| w.parsed.src_prefix == prefix) {
+            for s in &w.parsed.subs {
+                match s {
+                    Sub::Data { writer: x, sn, .. } | Sub::DataFrag { writer: x, sn, .. } if *x == writer && *sn < (1 << 40) => max_sn = max_sn.max(*sn),
+                    Sub::Heartbeat { writer: x, last, .. } if *x == writer && *last < (1 << 40) => max_sn = max_sn.max(*last),
+                    _ => {}
+                }
+            }
+        }
+        Some((rec.bytes.as_ref().unwrap().as_ref().clone(), max_sn + 1 + sn_off, rec.parsed.spans[idx], writer))
+    })?;
+    let _ = writer;
+    let (s, l) = span;
+    if s + 24 > bytes.len() {
+        return None;
+    }
+    let le = bytes[s + 1] & 1 == 1;
+    let (hi, lo) = ((next_sn >> 32) as i32, next_sn as u32);
+    if le {
+        bytes[s + 16..s + 20].copy_from_slice(&hi.to_le_bytes());
+        bytes[s + 20..s + 24].copy_from_slice(&lo.to_le_bytes());
+    } else {
+        bytes[s + 16..s + 20].copy_from_slice(&hi.to_be_bytes());
+        bytes[s + 20..s + 24].copy_from_slice(&lo.to_be_bytes());
+    }
+    let o2i = if le { u16::from_le_bytes([bytes[s + 6], bytes[s + 7]]) } else { u16::from_be_bytes([bytes[s + 6], bytes[s + 7]]) } as usize;
+    let pstart = (s + 4 + 4 + o2i).min(s + l);
+    let plen = (s + l).saturating_sub(pstart);
+    if plen == 0 {
+        return Some(bytes);
+    }
+    for m in muts {
+        match m {
+            Mut::Flip { bit } => {
+                let i = pstart + (*bit as usize / 8) % plen;
+                if i < bytes.len() {
+                    bytes[i] ^= 1 << (bit % 8);
+                }
+            }
+            Mut::SetU8 { off, v } => {
+                let i = pstart + *off as usize % plen;
+                if i < bytes.len() {
+                    bytes[i] = *v;
+                }
+            }
+            Mut::SetU16 { off, v, .. } => {
+                let i = pstart + (*off as usize * 2) % plen;
+                if i + 2 <= bytes.len() {
+                    bytes[i..i + 2].copy_from_slice(&v.to_le_bytes());
+                }
+            }
+            Mut::SetU32 { off, v, .. } => {
+                let i = pstart + (*off as usize) % plen / 4 * 4;
+                if i + 4 <= bytes.len() {
+                    bytes[i..i + 4].copy_from_slice(&v.to_le_bytes());
+                }
+            }
+            Mut::Truncate { at } => {
+                // the DATA submessage becomes the last one and extends to the end of the message
+                let keep = pstart + *at as usize % (plen + 1);
+                if keep <= bytes.len() && s + l >= bytes.len().min(s + l) {
+                    bytes.truncate(keep.max(s + 24));
+                    bytes[s + 2] = 0;
+                    bytes[s + 3] = 0;
+                }
+            }
+            _ => {}
+        }
+    }
+    Some(bytes)
+}
+
+fn sn_bytes(sn: i64) -> Vec<u8> {
+    let mut v = ((sn >> 32) as i32).to_le_bytes().to_vec();
+    v.extend_from_slice(&(sn as u32).to_le_bytes());
+    v
+}
+fn eid(e: u32) -> [u8; 4] {
+    e.to_be_bytes()
+}
+
+/// well-formed RTPS messages with arbitrary field values; `spoof_p` makes them carry the GUID prefix of
+/// a real (already discovered) participant
+pub fn craft(w: &Rc<World>, _node: usize, kind: &str, spoof_p: Option<u32>, a: i64, b: i64, c: i64, d: i64) -> Option<Vec<u8>> {
+    use crate::hostile::{rtps_header, submessage};
+    let prefix: [u8; 12] = match spoof_p {
+        Some(p) => {
+            let h = w.st.borrow().participants.get(&p).map(|x| crate::world::hd(x.0.get_instance_handle()))?;
+            h[..12].try_into().unwrap()
+        }
+        None => crate::hostile::foreign_prefix(99),
+    };
+    let mut m = rtps_header(&prefix);
+    let writer = eid(d as u32);
+    let reader = [0u8; 4];
+    let bitmap = |nbits: u32, fill: u32| -> Vec<u8> {
+        let mut v = nbits.to_le_bytes().to_vec();
+        let words = (nbits.min(100_000) as usize).div_ceil(32);
+        for _ in 0..words.min(16) {
+            v.extend_from_slice(&fill.to_le_bytes());
+        }
+        v
+    };
+    match kind {
+        "gap" => {
+            let mut body = reader.to_vec();
+            body.extend(writer);
+            body.extend(sn_bytes(a));
+            body.extend(sn_bytes(b));
+            body.extend(bitmap(c as u32, 0xFFFF_FFFF));
+            m.extend(submessage(0x08, 0x01, &body));
+        }
+        "heartbeat" => {
+            let mut body = reader.to_vec();
+            body.extend(writer);
+            body.extend(sn_bytes(a));
+            body.extend(sn_bytes(b));
+            body.extend((c as i32).to_le_bytes());
+            m.extend(submessage(0x07, 0x01, &body));
+        }
+        "acknack" => {
+            // to a writer: reader id is the sender's
+            let mut body = eid(0x0000_0007).to_vec();
+            body.extend(writer);
+            body.extend(sn_bytes(a));
+            body.extend(bitmap(b as u32, 0xAAAA_AAAA));
+            body.extend((c as i32).to_le_bytes());
+            m.extend(submessage(0x06, 0x01, &body));
+        }
+        "nackfrag" => {
+            let mut body = eid(0x0000_0007).to_vec();
+            body.extend(writer);
+            body.extend(sn_bytes(a));
+            body.extend((b as u32).to_le_bytes());
+            body.extend(bitmap(c as u32, 0xFFFF_FFFF));
+            body.extend(1i32.to_le_bytes());
+            m.extend(submessage(0x12, 0x01, &body));
+        }
+        "datafrag" => {
+            // a: sn, b: fragment starting num, c: (fragments in submessage << 16) | fragment size, d>>32: sample size
+            let mut body = vec![0u8, 0, 28, 0];
+            body.extend(reader);
+            body.extend(eid(d as u32));
+            body.extend(sn_bytes(a));
+            body.extend((b as u32).to_le_bytes());
+            body.extend(((c >> 16) as u16).to_le_bytes());
+            body.extend((c as u16).to_le_bytes());
+            body.extend(((d >> 32) as u32).to_le_bytes());
+            body.extend(vec![0xAB; (c as u16 as usize).min(2000)]);
+            m.extend(submessage(0x16, 0x01, &body));
+        }
+        "data" => {
+            // a: sn, b: payload length, c: encapsulation id
+            let mut body = vec![0u8, 0, 16, 0];
+            body.extend(reader);
+            body.extend(writer);
+            body.extend(sn_bytes(a));
+            body.extend([(c >> 8) as u8, c as u8, 0, 0]);
+            body.extend(vec![(a as u8).wrapping_mul(31); (b as usize).min(4000)]);
+            m.extend(submessage(0x15, 0x05, &body));
+        }
+        "heartbeatfrag" => {
+            let mut body = reader.to_vec();
+            body.extend(writer);
+            body.extend(sn_bytes(a));
+            body.extend((b as u32).to_le_bytes());
+            body.extend((c as i32).to_le_bytes());
+            m.extend(submessage(0x13, 0x01, &body));
+        }
+        "sub" => {
+            // arbitrary submessage id a, flags b, body of c bytes
+            m.extend(submessage(a as u8, b as u8, &vec![d as u8; (c as usize).min(3000)]));
+        }
+        "plist" => {
+            // a discovery DATA whose parameter list has a parameter with a hostile length / string length
+            let mut pl: Vec<u8> = vec![0x00, 0x03, 0x00, 0x00];
+            pl.extend((a as u16).to_le_bytes()); // parameter id
+            pl.extend((b as u16).to_le_bytes()); // declared length
+            pl.extend((c as u32).to_le_bytes()); // e.g. a string / sequence length
+            pl.extend(vec![0x41; 12]);
+            pl.extend([0x01, 0x00, 0x00, 0x00]);
+            let mut body = vec![0u8, 0, 16, 0];
+            body.extend(reader);
+            body.extend(writer);
+            body.extend(sn_bytes(1));
+            body.extend(pl);
+            m.extend(submessage(0x15, 0x05, &body));
+        }
+        _ => return None,
+    }
+    Some(m)
 }
